@@ -9,6 +9,7 @@ import (
 	"net/http"
 	"net/http/httptest"
 	"net/url"
+	"regexp"
 	"sort"
 	"strconv"
 	"strings"
@@ -590,7 +591,50 @@ func pqJudge(rig *pqRig, pc *pqCase) (sig, desc string, undecided string, nonEmp
 	if kind == "" {
 		return "", "", "", nonEmpty, sqls
 	}
+	if kind == "point-missing" || kind == "series-missing" {
+		// a set operator (or / unless / and) lets a point of one operand decide over a point of the other: a point that
+		// is missing at t while a series with the same labels apart from the name has a point at t that Prometheus does
+		// not return is the consequence of that extra point - name the cause
+		if k2, at, v, ok := extraTwin(got, want); ok && setOpRe.MatchString(pc.Expr) {
+			kind, d = "point-extra", fmt.Sprintf("series {%s}: point at t=%d (value %v) that Prometheus does not return (and which, through the set operator, displaces: %s)", k2, at, v, d)
+		}
+	}
 	return pqSignature(ep, pc.stepClass(), kind), fmt.Sprintf("[%s] %s: %s", kind, pc.reqString(), d), "", nonEmpty, sqls
+}
+
+var setOpRe = regexp.MustCompile(`\b(or|unless|and)\b`)
+var nameLblRe = regexp.MustCompile(`__name__="[^"]*",`)
+
+// extraTwin finds a point qryn returns and Prometheus does not, on a series whose labels apart from the name are
+// those of a series that misses a point at the same time.
+func extraTwin(got, want *pqResult) (key string, at int64, v float64, ok bool) {
+	has := func(ps []mSample, ms int64) bool {
+		for _, p := range ps {
+			if p.Ms == ms {
+				return true
+			}
+		}
+		return false
+	}
+	var keys []string
+	for k := range got.series {
+		keys = append(keys, k)
+	}
+	sort.Strings(keys)
+	for _, k2 := range keys {
+		for _, p := range got.series[k2] {
+			if has(want.series[k2], p.Ms) {
+				continue
+			}
+			// p is extra on k2; does a twin miss a point at p.Ms?
+			for k, wps := range want.series {
+				if k != k2 && nameLblRe.ReplaceAllString(k, "") == nameLblRe.ReplaceAllString(k2, "") && has(wps, p.Ms) && !has(got.series[k], p.Ms) {
+					return k2, p.Ms, p.V, true
+				}
+			}
+		}
+	}
+	return "", 0, 0, false
 }
 
 // pqSignature: hint class x mismatch kind. Within the classes whose treatment by processHints
